@@ -3,6 +3,8 @@ package spec
 import (
 	"fmt"
 	"math"
+
+	"qverif/sym"
 )
 
 // Ival abstracts the set of float64 values all elements of a tensor may take: a closed interval in the
@@ -240,3 +242,61 @@ func (a Ival) SumN() Ival {
 func (a Ival) MeanN() Ival { return a }
 
 func Bool01() Ival { return Rng(0, 1) }
+
+// IvalOfExpr evaluates a real expression in the interval domain; leaf gives the range of a tensor leaf's
+// elements, symr the range of a scalar symbol.
+func IvalOfExpr(e sym.Expr, leaf func(name string) Ival, symr func(name string) Ival) Ival {
+	return e.FoldIval(ivalOps{leaf: leaf, symr: symr}).(Ival)
+}
+
+type ivalOps struct {
+	leaf func(string) Ival
+	symr func(string) Ival
+}
+
+func (o ivalOps) Const(f float64) any     { return Pt(f) }
+func (o ivalOps) Sym(name string) any     { return o.symr(name) }
+func (o ivalOps) Leaf(name string) any    { return o.leaf(name) }
+func (o ivalOps) Add(a, b any) any        { return a.(Ival).Add(b.(Ival)) }
+func (o ivalOps) Mul(a, b any) any        { return a.(Ival).Mul(b.(Ival)) }
+func (o ivalOps) PowInt(a any, k int) any { return a.(Ival).PowC(float64(k)) }
+func (o ivalOps) Pow(a, b any) any {
+	bi := b.(Ival)
+	if bi.Lo == bi.Hi && !bi.NaN {
+		return a.(Ival).PowC(bi.Lo)
+	}
+	return Top()
+}
+func (o ivalOps) Ind() any       { return Rng(0, 1) }
+func (o ivalOps) SumN(a any) any { return a.(Ival).SumN() }
+func (o ivalOps) MaxN(a any) any { return a }
+func (o ivalOps) Fn(name string, args []any) any {
+	a := args[0].(Ival)
+	switch name {
+	case "exp":
+		return a.Exp()
+	case "log":
+		return a.Log()
+	case "sin":
+		return a.Sin()
+	case "cos":
+		return a.Cos()
+	case "tan":
+		return a.Tan()
+	case "sinh":
+		return a.Sinh()
+	case "cosh":
+		return a.Cosh()
+	case "tanh":
+		return a.Tanh()
+	case "sqrt":
+		return a.Sqrt()
+	case "abs":
+		return a.Abs()
+	case "max":
+		return a.Max(args[1].(Ival))
+	case "min":
+		return a.Min(args[1].(Ival))
+	}
+	return Top()
+}
